@@ -538,7 +538,7 @@ func TestVerifC15(t *testing.T) {
 		}
 		s, err := verifNewStack(t, ents, opts, cfg)
 		if err != nil {
-			out.Fail("stack-setup-failed", fmt.Sprintf("history %d: %v [%s | %s]", h, err, opts, cfg))
+			out.Fail("stack-setup-failed", fmt.Sprintf("history %d: %v [%s | %s] prioritized=%q", h, err, opts, cfg, opts.Prioritized))
 			continue
 		}
 		if verifTainted(s.lines) {
